@@ -125,6 +125,62 @@ def richardson(f_of_sigma, sigma, rel_step=2e-2, levels=5):
     return tab[-1][-1]
 
 
+def ciddor_1996(lam_um, t_c, p_hpa, e_hpa, xc_ppm):
+    """Phase and group refractivity (n - 1) x 1e8 of moist air after Ciddor (1996), Appl. Opt. 35, 1566 (phase) and Ciddor &
+    Hill (1999) for the group form, written from the published equations: dispersion of standard air (eq. 1) and of standard
+    water vapour (eq. 3), CO2 correction (eq. 2), BIPM density equation with the compressibility of appendix A, densities of
+    the dry-air and water-vapour components relative to their standard states (eq. 5).  `e_hpa` is the partial water vapour
+    pressure; the enhancement factor is applied to it as in the paper (x_w = f e / p).  Independent of the library's typing
+    of the same equations: own constants table, own evaluation order, group dispersion from the closed-form derivatives."""
+    s2 = (1.0 / lam_um) ** 2
+    k0, k1, k2, k3 = 238.0185, 5792105.0, 57.362, 167917.0
+    w0, w1, w2, w3 = 295.235, 2.6422, -0.032380, 0.004028
+    # standard air 15 C, 101325 Pa, 450 ppm CO2, dry;  phase and group
+    nas = k1 / (k0 - s2) + k3 / (k2 - s2)
+    ngas = k1 * (k0 + s2) / (k0 - s2) ** 2 + k3 * (k2 + s2) / (k2 - s2) ** 2
+    co2 = 1.0 + 0.534e-6 * (xc_ppm - 450.0)
+    # standard water vapour 20 C, 1333 Pa
+    nws = 1.022 * (w0 + s2 * (w1 + s2 * (w2 + s2 * w3)))
+    ngws = 1.022 * (w0 + s2 * (3.0 * w1 + s2 * (5.0 * w2 + s2 * 7.0 * w3)))
+
+    def zed(p, t, xw):
+        T = t + 273.15
+        a0, a1, a2 = 1.58123e-6, -2.9331e-8, 1.1043e-10
+        b0, b1, c0, c1, d, e = 5.707e-6, -2.051e-8, 1.9898e-4, -2.376e-6, 1.83e-11, -0.765e-8
+        q = p / T
+        return 1.0 - q * (a0 + a1 * t + a2 * t * t + (b0 + b1 * t) * xw + (c0 + c1 * t) * xw * xw) + q * q * (d + e * xw * xw)
+    R, Mw = 8.314510, 0.018015
+    Ma = 1e-3 * (28.9635 + 12.011e-6 * (xc_ppm - 400.0))
+    rho_axs = 101325.0 * Ma / (zed(101325.0, 15.0, 0.0) * R * 288.15)
+    rho_ws = 1333.0 * Mw / (zed(1333.0, 20.0, 1.0) * R * 293.15)
+    p = p_hpa * 100.0
+    f = 1.00062 + 3.14e-8 * p + 5.6e-7 * t_c * t_c
+    xw = f * (e_hpa * 100.0) / p
+    Z = zed(p, t_c, xw)
+    T = t_c + 273.15
+    rho_a = p * Ma * (1.0 - xw) / (Z * R * T)
+    rho_w = p * Mw * xw / (Z * R * T)
+    phase = rho_a / rho_axs * nas * co2 + rho_w / rho_ws * nws
+    group = rho_a / rho_axs * ngas * co2 + rho_w / rho_ws * ngws
+    return phase, group
+
+
+def ciddor_selfcheck():
+    """The typed group form must be the typed phase form plus sigma dn/dsigma (central differences, Richardson), and dry
+    standard air at 450 ppm must give the standard-air dispersion itself."""
+    worst = 0.0
+    for lam, t, p, e, xc in ((0.6328, 20.0, 1013.25, 11.0, 420.0), (0.85, -5.0, 800.0, 0.0, 300.0), (1.55, 35.0, 1050.0, 38.0, 600.0)):
+        ph, gr = ciddor_1996(lam, t, p, e, xc)
+        sig = 1.0 / lam
+        d = richardson(lambda sg: ciddor_1996(1.0 / sg, t, p, e, xc)[0], sig)
+        worst = max(worst, abs(gr - (ph + sig * d)) / gr)
+    assert worst < 1e-9, worst
+    ph, _ = ciddor_1996(0.6328, 15.0, 1013.25, 0.0, 450.0)
+    s2 = (1 / 0.6328) ** 2
+    assert abs(ph - (5792105.0 / (238.0185 - s2) + 167917.0 / (57.362 - s2))) < 1e-6 * ph
+    return worst
+
+
 def selfcheck_tools():
     """Validates the tools above against second derivations.  Returns a dict of residuals; raises
     AssertionError text via ValueError if one is out of bounds (caller turns it into INCONCLUSIVE)."""
